@@ -1,6 +1,6 @@
 """C09 - transport failures become events, never exceptions or hangs."""
 from __future__ import annotations
-import random
+import json, random
 import runner, coreutil, gen_core
 from coreutil import Scenario, events, reads, toks
 from refcodec import server_frame, close_payload
@@ -220,14 +220,39 @@ def explore(res, tier, seed, model_ok=True):
     # `_connect_sock` (simulated socket module: getaddrinfo + one outcome per address) through a whole connection, against
     # `ConnectLink.composed`; oracle: every address tried before ConnectFail, failed sockets closed, nothing escapes -----
     import linkworld
-    linkworld.explore_stream(res, rng, 'direct', 5000 if tier == 'thorough' else 400, model_ok, 'C09')
+    linkworld.explore_stream(res, rng, 'direct', 5000 if tier == 'thorough' else 400, model_ok, 'C09', judge_close=True)
+    # "... ConnectFail before the connection is up ... and the socket is closed" (finding D11): the same composed connections through
+    # a proxy -- every failure class of the tunnel after the TCP connect -- and, oracle-only, direct wss:// connections whose
+    # per-candidate TLS wrap raises; oracle: at ConnectFail every socket the connection phase created has been closed
+    for c in linkworld.d11_cases():
+        r = linkworld.run_link_safe(c)
+        res.case(('link', 'd11', c['name']))
+        res.count('link:' + c['name'])
+        v = linkworld.oracle(c, r) or linkworld.oracle_closed(c, r)
+        if v:
+            res.failures.append(dict(cls='link-' + v[0], what=v[1], input=dict(kind='link', case=c), observed=r[-1500:],
+                                     expected='property text of C09 over the composed connection'))
+        if model_ok:
+            m = runner.model_run([linkworld.link_line(c)])[0]
+            res.traces_validated += 1
+            if m != r:
+                res.diffs.append(dict(input=linkworld.link_line(c)[:3000], real=r[-2000:], model=m[-2000:], case=c))
+    linkworld.explore_stream(res, rng, 'proxy', 5000 if tier == 'thorough' else 400, model_ok, 'C09', judge_close=True)
+    linkworld.explore_stream(res, rng, 'direct-wss', 1500 if tier == 'thorough' else 150, model_ok, 'C09', judge_close=True)
     res.samples += [first_pairs[0][1][-200:], first_pairs[1][1][-200:], 'connect outcomes (ok, connect-fail, sockcreate-fail)^n, n<=3']
 
 
 def replay(rp):
     if isinstance(rp.get('input'), dict) and rp['input'].get('kind') == 'link':
         import linkworld
-        print('real: ' + linkworld.run_link_safe(rp['input']['case']))
-        print('model line: ' + linkworld.link_line(rp['input']['case']))
+        case = rp['input']['case']
+        real = linkworld.run_link_safe(case)
+        print('case : ' + json.dumps({k: v for k, v in case.items() if k != 'sc'}))
+        print('class: %s - %s' % (rp.get('cls'), rp.get('what')))
+        print('real : ' + real)
+        print('oracle now: %s' % (linkworld.oracle(case, real) or linkworld.oracle_closed(case, real),))
+        print('_connect_proxy closes its socket on failure (probe): %s' % linkworld.proxy_closes_on_failure())
+        if not case.get('wrap_fail_call') and not case['url'].startswith('wss') or case.get('http') or case.get('https'):
+            print('model line: ' + linkworld.link_line(case))
         return 0
     return coreutil.replay_core(rp)
